@@ -20,7 +20,9 @@ import (
 	"io"
 	"log/slog"
 	"os"
+	"os/exec"
 	"path/filepath"
+	"strconv"
 	"strings"
 	"time"
 
@@ -175,23 +177,72 @@ func runSites(dir string, seed uint64, tier string) error {
 		return err
 	}
 	repoSrc := ""
-	repoLine := func(line string) siteObs {
-		return observe("repoLine", dl, func() ([]string, []byte, bool, error) {
-			ixs, err := apk.GetRepositoryIndexes(ctx, []string{line}, map[string][]byte{}, arch, apk.WithIgnoreSignatures(true))
-			if err != nil {
-				return nil, nil, false, err
+	// GetRepositoryIndexes runs the splitter in an errgroup goroutine: a panic there cannot be
+	// recovered and kills the process (as it would kill apko). The lines are therefore run in a
+	// child process that announces each one; a death is the outcome "panic" of the line it was at.
+	var repoLines []string
+	repoLine := func(line string) { repoLines = append(repoLines, line) }
+	runRepoLines := func() ([]siteObs, error) {
+		inFile := filepath.Join(tmpRoot, "repolines.txt")
+		var sb strings.Builder
+		for _, l := range repoLines {
+			sb.WriteString(base64.StdEncoding.EncodeToString([]byte(l)) + "\n")
+		}
+		if err := os.WriteFile(inFile, []byte(sb.String()), 0o644); err != nil {
+			return nil, err
+		}
+		obs := make([]siteObs, len(repoLines))
+		for from, restarts := 0, 0; from < len(repoLines); restarts++ {
+			if restarts > 100 {
+				return nil, fmt.Errorf("sites: the repository-line child was restarted more than 100 times")
 			}
-			var out []string
-			for _, ix := range ixs {
-				out = append(out, ix.Name(), ix.Source())
+			cmd := exec.Command(os.Args[0], "-child", "repolines", "-in", inFile, "-dir", repoDir, "-from", strconv.Itoa(from))
+			cmd.Env = append(os.Environ(), "GOTRACEBACK=none")
+			out, _ := cmd.Output()
+			current := -1
+			for _, l := range strings.Split(string(out), "\n") {
+				f := strings.SplitN(l, " ", 4)
+				switch f[0] {
+				case "BEGIN":
+					current, _ = strconv.Atoi(f[1])
+				case "END":
+					i, _ := strconv.Atoi(f[1])
+					cl, _ := strconv.Atoi(f[2])
+					var o []string
+					if len(f) > 3 && f[3] != "" {
+						for _, e := range strings.Split(f[3], ",") { // base64 per string: names may hold any byte
+							d, _ := base64.StdEncoding.DecodeString(e)
+							o = append(o, string(d))
+						}
+					}
+					obs[i] = siteObs{class: cl, out: o}
+					current, from = -1, i+1
+				}
 			}
-			return out, nil, false, nil
-		})
+			if current >= 0 {
+				obs[current] = siteObs{class: ckPanic}
+				st := stats["repoLine"]
+				st[ckPanic]++
+				stats["repoLine"] = st
+				from = current + 1
+			} else if from < len(repoLines) && !strings.Contains(string(out), "DONE") {
+				return nil, fmt.Errorf("sites: the repository-line child stopped without a case in flight")
+			}
+		}
+		return obs, nil
 	}
-	if o := repoLine(repoDir); o.class == ckOk && len(o.out) == 2 {
-		repoSrc = o.out[1]
-	} else {
-		return fmt.Errorf("sites: the plain repository line did not yield one index: %+v", o)
+	{
+		repoLine(repoDir)
+		o, err := runRepoLines()
+		if err != nil {
+			return err
+		}
+		if o[0].class == ckOk && len(o[0].out) == 2 {
+			repoSrc = o[0].out[1]
+		} else {
+			return fmt.Errorf("sites: the plain repository line did not yield one index: %+v", o[0])
+		}
+		repoLines = nil
 	}
 	missing := "/nonexistent-c15/repo"
 	spaces := []string{" ", "\t", "  ", " \t ", "\u00a0", "\u0085", "\u1680", "\u3000", "\u2000", "\u2003", "\u200a", "\u2028", "\v", "\f", "\r", "\n", "\u2029", "\u202f", "\u205f"}
@@ -201,8 +252,9 @@ func runSites(dir string, seed uint64, tier string) error {
 		"@t " + repoDir + " " + missing, "@t " + missing + " " + repoDir, "@\u3000" + repoDir, "@t\xc2" + repoDir, "@t\xc2\xa0" + repoDir, "@t\xe2\x80" + repoDir, "@t\xe2\x80\x83" + repoDir + "\xe2\x80\x83x",
 		"\u00a0@t " + repoDir, "@t\x85" + repoDir, "@t\xc2\x85" + repoDir}
 	for _, l := range lines {
-		addSite(w, "repoLine", l, []string{repoDir, repoSrc}, nil, "[]", "[]", repoLine(l), "corpus")
+		repoLine(l)
 	}
+	nCorpusLines := len(repoLines)
 	for i := 0; i < 200*scale; i++ {
 		var sb strings.Builder
 		if r.Chance(1, 8) {
@@ -231,8 +283,20 @@ func runSites(dir string, seed uint64, tier string) error {
 		if r.Chance(1, 4) {
 			sb.WriteString(gal.Pick(r, spaces))
 		}
-		l := sb.String()
-		addSite(w, "repoLine", l, []string{repoDir, repoSrc}, nil, "[]", "[]", repoLine(l), "generated")
+		repoLine(sb.String())
+	}
+	{
+		obs, err := runRepoLines()
+		if err != nil {
+			return err
+		}
+		for i, l := range repoLines {
+			bucket := "generated"
+			if i < nCorpusLines {
+				bucket = "corpus"
+			}
+			addSite(w, "repoLine", l, []string{repoDir, repoSrc}, nil, "[]", "[]", obs[i], bucket)
+		}
 	}
 
 	// ---- unify: (name, pinned) of an original package line ----------------------------
@@ -445,4 +509,40 @@ func runSites(dir string, seed uint64, tier string) error {
 	st, _ := json.Marshal(map[string]any{"sites_outcomes_ok_err_panic_timeout": stats})
 	fmt.Printf("STAT %s\n", st)
 	return w.Flush()
+}
+
+// childRepoLines: one repository line per case through the real GetRepositoryIndexes
+func childRepoLines(inFile, repoDir string, from int) {
+	slog.SetDefault(slog.New(slog.NewTextHandler(io.Discard, nil)))
+	b, err := os.ReadFile(inFile)
+	if err != nil {
+		os.Exit(3)
+	}
+	ctx := context.Background()
+	lines := strings.Split(strings.TrimSuffix(string(b), "\n"), "\n")
+	for i := from; i < len(lines); i++ {
+		raw, _ := base64.StdEncoding.DecodeString(lines[i])
+		fmt.Printf("BEGIN %d\n", i)
+		var out []string
+		silent = true
+		cl := call("repoLine", func([]byte) error {
+			ixs, err := apk.GetRepositoryIndexes(ctx, []string{string(raw)}, map[string][]byte{}, "x86_64", apk.WithIgnoreSignatures(true))
+			if err != nil {
+				return err
+			}
+			for _, ix := range ixs {
+				out = append(out, ix.Name(), ix.Source())
+			}
+			return nil
+		}, raw, 5*time.Second)
+		if cl != ckOk {
+			out = nil
+		}
+		enc := make([]string, len(out))
+		for k, o := range out {
+			enc[k] = base64.StdEncoding.EncodeToString([]byte(o))
+		}
+		fmt.Printf("END %d %d %s\n", i, cl, strings.Join(enc, ","))
+	}
+	fmt.Println("DONE")
 }
